@@ -79,8 +79,8 @@ Lemma guard_ok s tokens si sj ei ej bs be : Inv0 s ->
        match t_handle (tget (s_toks s) t) with
        | None => false
        | Some (hb, hi) =>
-         let p := (b_index (bget (s_heap s) hb), hi) in
-         negb (pair_le (Z.of_nat si, Z.of_nat sj) p && pair_le p (Z.of_nat ei, Z.of_nat ej))
+         negb (pair_le (Z.of_nat si, Z.of_nat sj) (b_index (bget (s_heap s) hb), hi) &&
+               pair_le (b_index (bget (s_heap s) hb), hi) (Z.of_nat ei, Z.of_nat ej))
        end) tokens = false.
 Proof.
   intros I Hbs Hbe Lsj Lej F Hv. apply existsb_false. intros t Ht. fold (hnd s t).
@@ -95,6 +95,9 @@ Proof.
   { cbv zeta. subst F. cbv beta in *. lia. }
   unfold pair_le. cbn [fst snd]. lia.
 Qed.
+
+Lemma InvG_with_len X s n : InvG X s -> InvG X (with_len s n).
+Proof. intros [a b c d e f g h]. constructor; [exact a|exact b|exact c|exact d|exact e|exact f|exact g|exact h]. Qed.
 
 Lemma nodup_splice {A} (P B1 R B2 Q T : list A) : NoDup (P ++ (B1 ++ R ++ B2) ++ Q) -> NoDup T ->
   (forall t, In t T -> ~ In t (P ++ (B1 ++ R ++ B2) ++ Q) \/ In t R) -> NoDup (P ++ (B1 ++ T ++ B2) ++ Q).
@@ -192,7 +195,7 @@ Let ld2 := - sum_lines (s_toks s) R + sum_lines (s_toks s2) tokens.
 Let s3 := set_blk (with_toks s2 (rehandle (s_toks s2) b (Z.of_nat sj) (skipn sj NT))) b
             (mkblk (b_index (bget (s_heap s2) b)) (b_toks (bget (s_heap s2) b))
                (mkpos (line (b_size (bget (s_heap s2) b)) + ld2) (col (b_size (bget (s_heap s2) b))))
-               (b_lnl (bget (s_heap s2) b) + (zlen tokens - (Z.of_nat ej - Z.of_nat sj)))).
+               (b_lnl (bget (s_heap s2) b) + (zlen tokens - Z.of_nat (ej - sj)))).
 
 Lemma fast_path : (NT = [] -> s_blocks s = [b]) -> blnl s b >= Z.of_nat ej ->
   Inv0 s3 /\ abs s3 = abs s2 /\ (forall t, tsz (s_toks s3) t = tsz (s_toks s) t /\ txt s3 t = txt s t).
@@ -261,3 +264,103 @@ Proof.
     intro t. destruct (Hsz3 t) as [-> ->]. apply Hsz2.
 Qed.
 End Single.
+
+(* ---------- multi-block path: state before _update_block ---------- *)
+Section Multi.
+Variables (s : store) (si ei : nat) (bs be : positive) (sj ej : nat) (tokens : list positive).
+Hypothesis I : Inv0 s.
+Hypothesis Lt : (si < ei)%nat.
+Hypothesis Hbs : nth_error (s_blocks s) si = Some bs.
+Hypothesis Hbe : nth_error (s_blocks s) ei = Some be.
+Hypothesis Hsj : (sj <= length (toks s bs))%nat.
+Hypothesis Hej : (ej <= length (toks s be))%nat.
+Hypothesis NDt : NoDup tokens.
+Let pre := firstn si (s_blocks s).
+Let post := skipn (S ei) (s_blocks s).
+Let mids := firstn (ei - S si) (skipn (S si) (s_blocks s)).
+Let midtoks := flat_map (toks s) mids.
+Let B1 := firstn sj (toks s bs).
+Let R1 := skipn sj (toks s bs).
+Let R3 := firstn ej (toks s be).
+Let B2 := skipn ej (toks s be).
+Let R := R1 ++ midtoks ++ R3.
+Hypothesis Hv : forall t, In t tokens -> ~ In t (abs s) \/ In t R.
+Let NT := B1 ++ tokens ++ B2.
+Let tk3 := unhandle (unhandle (unhandle (s_toks s) R1) midtoks) R3.
+Let nb := s_next s.
+Let s2 := fst (bare_block (with_toks s tk3) (Z.of_nat si) NT).
+Let s3 := with_blocks s2 (pre ++ [nb] ++ post).
+Let s3' := update_block_indexes s3 (Z.of_nat (S si)).
+
+Lemma multi_pre :
+  InvG (eq nb) s3' /\
+  abs s3' = flat_map (toks s) pre ++ NT ++ flat_map (toks s) post /\
+  nth_error (s_blocks s3') si = Some nb /\
+  (forall t, tsz (s_toks s3') t = tsz (s_toks s) t /\ txt s3' t = txt s t) /\
+  s_len s3' = s_len s.
+Proof.
+  pose proof (mid_split _ _ _ _ _ Lt Hbs Hbe) as E. fold pre post mids in E.
+  set (OLD := bs :: mids ++ [be]) in *.
+  destruct (seg_facts _ s pre OLD post I E) as (ND & Dis & Ea & NDa & Hpp & Hold).
+  assert (flat_map (toks s) OLD = B1 ++ R ++ B2) as Eold.
+  { unfold OLD. cbn [flat_map]. rewrite flat_map_app. cbn [flat_map]. rewrite app_nil_r.
+    rewrite <- (firstn_skipn sj (toks s bs)) at 1. rewrite <- (firstn_skipn ej (toks s be)) at 1.
+    fold B1 R1 R3 B2 midtoks. unfold R. rewrite <- !app_assoc. reflexivity. }
+  rewrite Eold in Ea, NDa.
+  assert (forall t, hnd s3' t = if in_dec Pos.eq_dec t R then None else hnd s t) as Hh.
+  { intro t. unfold s3'. rewrite ubi_hnd. unfold hnd. change (s_toks s3) with tk3. unfold tk3.
+    rewrite !unhandle_handle. unfold R.
+    destruct (in_dec Pos.eq_dec t R3), (in_dec Pos.eq_dec t midtoks), (in_dec Pos.eq_dec t R1),
+      (in_dec Pos.eq_dec t (R1 ++ midtoks ++ R3)) as [Hi|Hi]; try reflexivity;
+      exfalso; try (apply Hi; apply in_or_app; auto; right; apply in_or_app; auto).
+    apply in_app_or in Hi as [?|Hi]; [contradiction|]. apply in_app_or in Hi as [?|?]; contradiction. }
+  assert (forall t, tsz (s_toks s3') t = tsz (s_toks s) t /\ txt s3' t = txt s t) as Hsz.
+  { intro t. unfold s3', txt. rewrite ubi_toksmap. change (s_toks s3) with tk3. unfold tk3, tsz.
+    rewrite !unhandle_size, !unhandle_text. auto. }
+  assert (forall b0, b0 <> nb -> bget (s_heap s3) b0 = bget (s_heap s) b0) as G3.
+  { intros b0 N. unfold s3, s2, bare_block. cbn. apply bget_add_other; assumption. }
+  assert (bget (s_heap s3) nb = mkblk (Z.of_nat si) NT pos0 (-1)) as G3n.
+  { unfold s3, s2, bare_block. cbn. apply bget_add_same. }
+  assert (forall b0, In b0 (s_blocks s) -> b0 <> nb) as Hfresh.
+  { intros b0 H0 ->. apply (g_lt _ _ I) in H0. unfold nb in H0. lia. }
+  assert (NoDup (pre ++ [nb] ++ post)) as ND'.
+  { apply (nodup_mid_replace pre OLD [nb] post ND); [repeat constructor; intros []|].
+    intros x [<-|[]]. split; intro Hc; apply (Hfresh nb); try reflexivity; apply Hpp; apply in_or_app; auto. }
+  assert (length pre = si) as Lpre by (apply (nth_error_split_at _ _ _ Hbs)).
+  destruct (seg_replace (fun _ => False) (eq nb) s s3' pre OLD [nb] post NT I E) as [I' Ea'].
+  - discriminate.
+  - intros; tauto.
+  - unfold s3'. rewrite ubi_blocks. reflexivity.
+  - discriminate.
+  - exact ND'.
+  - unfold s3'. rewrite ubi_next. change (s_next s3) with (Pos.succ nb). intros b0 H0.
+    apply in_app_or in H0 as [H0|H0]; [|apply in_app_or in H0 as [[<-|[]]|H0]]; try lia.
+    + assert (In b0 (s_blocks s)) as Hin by (apply Hpp; apply in_or_app; auto). apply (g_lt _ _ I) in Hin. unfold nb. lia.
+    + assert (In b0 (s_blocks s)) as Hin by (apply Hpp; apply in_or_app; auto). apply (g_lt _ _ I) in Hin. unfold nb. lia.
+  - apply (ubi_idx s3 (S si) ND'). intros k b0 Hk Hn. change (s_blocks s3) with (pre ++ [nb] ++ post) in Hn.
+    destruct (Nat.lt_ge_cases k si) as [L|L].
+    + rewrite nth_error_app1 in Hn by lia. unfold bidx.
+      assert (In b0 (s_blocks s)) as Hin by (apply Hpp; apply in_or_app; left; eapply nth_error_In; eassumption).
+      rewrite G3 by (apply Hfresh; assumption). apply (g_idx _ _ I). rewrite E, nth_error_app1 by lia. exact Hn.
+    + assert (k = si) as -> by lia. rewrite nth_error_app2, Lpre, Nat.sub_diag in Hn by lia. cbn in Hn. injection Hn as <-.
+      unfold bidx. rewrite G3n. reflexivity.
+  - intros b0 H0. assert (b0 <> nb) as N by (apply Hfresh, Hpp; assumption).
+    unfold bsz, blnl, s3'. rewrite ubi_toks. unfold toks.
+    fold (bsz (update_block_indexes s3 (Z.of_nat (S si))) b0) (blnl (update_block_indexes s3 (Z.of_nat (S si))) b0).
+    rewrite ubi_bsz, ubi_blnl. unfold bsz, blnl. rewrite G3 by assumption. auto.
+  - cbn [flat_map]. unfold s3'. rewrite ubi_toks. unfold toks. rewrite G3n. apply app_nil_r.
+  - apply (nodup_splice _ _ R); [exact NDa|exact NDt|].
+    intros t Ht. destruct (Hv t Ht) as [Hn|Hr]; [left|right; assumption]. rewrite <- Ea. exact Hn.
+  - exact Hsz.
+  - intros t Hn Ho. rewrite Hh. destruct (in_dec Pos.eq_dec t R) as [Hr|]; [|reflexivity].
+    exfalso. apply Ho. rewrite Eold. apply in_or_app; right; apply in_or_app; auto.
+  - intros t Hn Ho. rewrite Hh. destruct (in_dec Pos.eq_dec t R) as [|Hr]; [reflexivity|]. exfalso.
+    rewrite Eold in Ho. apply Hn. unfold NT. apply in_app_or in Ho as [?|Ho]; [apply in_or_app; auto|].
+    apply in_app_or in Ho as [?|?]; [contradiction|apply in_or_app; right; apply in_or_app; auto].
+  - intros b0 [<-|[]] Hx. exfalso. apply Hx. reflexivity.
+  - split; [exact I'|]. split; [exact Ea'|]. split; [|split; [exact Hsz|]].
+    + unfold s3'. rewrite ubi_blocks. change (s_blocks s3) with (pre ++ [nb] ++ post).
+      rewrite nth_error_app2, Lpre, Nat.sub_diag by lia. reflexivity.
+    + unfold s3'. rewrite ubi_len. reflexivity.
+Qed.
+End Multi.
